@@ -524,8 +524,21 @@ pub mod chan {
         }
     }
 
+    /// A scheduling point after every completed channel operation (the channel's lock is released by then):
+    /// code that follows a send or a receive with an operation the simulator does not see (a std atomic, a
+    /// plain counter) can be overtaken there by another simulated thread, as it can on real threads.
+    fn after_op() {
+        shuttle::thread::yield_now();
+    }
+
     impl<T> Sender<T> {
         pub fn send(&self, msg: T) -> Result<(), SendError<T>> {
+            let r = self.send_inner(msg);
+            after_op();
+            r
+        }
+
+        fn send_inner(&self, msg: T) -> Result<(), SendError<T>> {
             let id = self.0.id;
             let mut g = self.0.m.lock().unwrap();
             let mut blocked = false;
@@ -591,6 +604,12 @@ pub mod chan {
         }
 
         pub fn try_send(&self, msg: T) -> Result<(), TrySendError<T>> {
+            let r = self.try_send_inner(msg);
+            after_op();
+            r
+        }
+
+        fn try_send_inner(&self, msg: T) -> Result<(), TrySendError<T>> {
             let id = self.0.id;
             let mut g = self.0.m.lock().unwrap();
             if g.receivers == 0 {
@@ -642,6 +661,12 @@ pub mod chan {
 
     impl<T> Receiver<T> {
         pub fn recv(&self) -> Result<T, RecvError> {
+            let r = self.recv_inner();
+            after_op();
+            r
+        }
+
+        fn recv_inner(&self) -> Result<T, RecvError> {
             let id = self.0.id;
             let mut g = self.0.m.lock().unwrap();
             let mut blocked = false;
@@ -685,6 +710,12 @@ pub mod chan {
         }
 
         pub fn try_recv(&self) -> Result<T, TryRecvError> {
+            let r = self.try_recv_inner();
+            after_op();
+            r
+        }
+
+        fn try_recv_inner(&self) -> Result<T, TryRecvError> {
             let id = self.0.id;
             let mut g = self.0.m.lock().unwrap();
             if let Some(v) = g.q.pop_front() {
